@@ -186,9 +186,9 @@ def strategy_descr(repo, items):
     v = init.value
     if isinstance(v, ast.UnaryOp) and isinstance(v.op, ast.USub) and isinstance(v.operand, ast.Constant):
         v = ast.Constant(value=-v.operand.value)
-    if not (isinstance(v, ast.Constant) and isinstance(v.value, (int, float)) and not isinstance(v.value, bool)
-            and v.value == int(v.value) and abs(v.value) < 2 ** 53):
-        raise TranslationError(REL, init, 'initial value must be an integer literal')
+    if not (isinstance(v, ast.Constant) and type(v.value) is int and abs(v.value) < 2 ** 53):
+        # `z = 0.0` is NOT the same strategy: it turns exact integer sums (integer components and weights) into rounded floats
+        raise TranslationError(REL, init, 'initial value must be an integer literal (a float literal changes integer-valued sums)')
     init_val = int(v.value)
     if not (isinstance(loop, ast.For) and not loop.orelse):
         raise TranslationError(REL, loop, 'expected a for loop over zip(self.functions, self.weights)')
